@@ -34,6 +34,8 @@ CONSTANTS
   MaxCtl,         \* bound on control requests per behaviour
   CtlSources,     \* subset of {"ondemand", "scheduledtask"}
   MaxRebootAsks,  \* bound on reboot-wait iterations
+  MaxCrashes,     \* bound on process deaths per behaviour
+  RestartRuns,    \* what the embedder configures on a restart: records [os, apps]
   Mut             \* "none" or the name of a seeded design regression (model mutants)
 
 VARIABLES st, obs, g, script
@@ -143,7 +145,8 @@ Init ==
            nChecks |-> 0, nCtl |-> 0, nAsk |-> 0,
            wait |-> [untilTid |-> 0, forTid |-> 0, untilFired |-> FALSE, forFired |-> FALSE, rbTid |-> 0, rbFired |-> FALSE],
            ctlq |-> <<>>, inWfr |-> FALSE, respOwed |-> <<>>,
-           op |-> [kind |-> "none", n |-> 0, next |-> "none", ctl |-> FALSE]]
+           op |-> [kind |-> "none", n |-> 0, next |-> "none", ctl |-> FALSE],
+           nCrash |-> 0, os |-> "1.0", presets |-> Apps0, startM |-> 0, wfr |-> FALSE]
   /\ obs = <<>>
   /\ g = GhostInit
   /\ script = <<>>
@@ -151,8 +154,9 @@ Init ==
 Ans(kind, n, a) == <<[key |-> kind, n |-> n, ans |-> a]>>
 Stim(p, n, do) == <<[p |-> p, n |-> n, do |-> do]>>
 
-RunCfg == [mode |-> Mode, cup |-> CupOn, kid |-> IF CupOn THEN KID ELSE 0, apps |-> Apps0, sys |-> SysApp, os |-> "1.0",
-           url |-> "http://omaha.example/svc/v1", twin |-> FALSE]
+RunCfgOf(os, apps) == [mode |-> Mode, cup |-> CupOn, kid |-> IF CupOn THEN KID ELSE 0, apps |-> apps, sys |-> SysApp, os |-> os,
+                       url |-> "http://omaha.example/svc/v1", twin |-> FALSE]
+RunCfg == RunCfgOf("1.0", Apps0)
 
 (***************************************************************************)
 (* B0: build + load (builder.rs:276-316); storage is empty in this model   *)
@@ -161,7 +165,7 @@ RunCfg == [mode |-> Mode, cup |-> CupOn, kid |-> IF CupOn THEN KID ELSE 0, apps 
 B0_Start ==
   /\ st.pc = "B0"
   /\ Emit(<<Stamp([k |-> "cfg", id |-> "tlc", run |-> RunCfg, store |-> <<>>], st.clk)>>)
-  /\ st' = [st EXCEPT !.pc = IF Mode = "oneshot" THEN "P1" ELSE "R5"]
+  /\ st' = [st EXCEPT !.pc = IF Mode = "oneshot" THEN "P1" ELSE "R4"]
   /\ UNCHANGED script
 
 (***************************************************************************)
@@ -228,6 +232,64 @@ CtlSendIdle(src) ==
      /\ script' = script \o Stim("idle", n, [s |-> "ctl", h |-> 0, src |-> src])
      /\ st' = [st EXCEPT !.ids.req = id, !.nCtl = @ + 1, !.cnt.idle = n, !.ctlq = Append(@, [req |-> id, src |-> src])]
 
+(***************************************************************************)
+(* Process death and rebirth.  The machine dies at its current await (an   *)
+(* operation in flight or an idle select); uncommitted writes are lost;    *)
+(* the embedder builds a new machine on the surviving storage              *)
+(* (builder.rs:276-316 load, common.rs:85-123 restore rule,                *)
+(* update_check.rs:42-73 context).  R3/R4: the waited-for-reboot report    *)
+(* (:319-361, :516-574).                                                   *)
+(***************************************************************************)
+ModelLoadApp(a, store) ==
+  IF a.id \in DOMAIN store
+    THEN LET p == store[a.id] IN
+         [a EXCEPT !.cohort = [f \in (DOMAIN p.cohort) \cup (DOMAIN a.cohort) |-> IF f \in DOMAIN a.cohort THEN a.cohort[f] ELSE p.cohort[f]],
+                   !.uc = IF a.uc = None THEN p.uc ELSE a.uc]
+    ELSE a
+LoadCtx(store) ==
+  LET t == IF "last_update_time" \in DOMAIN store THEN [w |-> Some(store["last_update_time"]), m |-> None] ELSE EmptyLut IN
+  [poll |-> IF "server_dictated_poll_interval" \in DOMAIN store THEN Some(store["server_dictated_poll_interval"].s) ELSE None,
+   fails |-> IF "consecutive_failed_update_checks" \in DOMAIN store THEN store["consecutive_failed_update_checks"] ELSE 0,
+   lut |-> t, lct |-> t, next |-> None]
+WfrOwed(store, os) == "update_finish_time" \in DOMAIN store /\ "target_version" \in DOMAIN store /\ store["target_version"] = os
+
+Crash(run) ==
+  /\ Mode = "start" /\ st.nCrash < MaxCrashes
+  /\ st.pc \in {"OP", "R7", "W3"} /\ (st.pc = "OP" \/ Quiet)
+  /\ LET at == IF st.pc = "OP" THEN st.op.kind ELSE "idle"
+         n == IF st.pc = "OP" THEN st.op.n ELSE st.cnt.idle + 1
+         comm == st.store.comm
+         apps1 == [i \in 1..Len(run.apps) |-> ModelLoadApp(run.apps[i], comm)]
+         gone == [i \in 1..Len(st.ctlq) |-> Stamp([k |-> "ctl.reply", req |-> st.ctlq[i].req, ans |-> "gone"], st.clk)] IN
+     /\ Emit(<<Stamp([k |-> "crash", at |-> at], st.clk)>> \o gone
+             \o <<Stamp([k |-> "restart", run |-> RunCfgOf(run.os, run.apps), store |-> comm], st.clk)>>)
+     /\ script' = script \o Stim(at, n, [s |-> "crash", run |-> [os_version |-> run.os, apps |-> run.apps]])
+     /\ st' = [st EXCEPT !.pc = "R4", !.store = [pend |-> comm, comm |-> comm], !.ctx = LoadCtx(comm), !.apps = apps1,
+                         !.ck = CkInit, !.rq = [kind |-> "none", apps |-> <<>>, ret |-> "none", res |-> "none", ans |-> NoAns],
+                         !.wait = [untilTid |-> 0, forTid |-> 0, untilFired |-> FALSE, forFired |-> FALSE, rbTid |-> 0, rbFired |-> FALSE],
+                         !.ctlq = <<>>, !.inWfr = FALSE, !.respOwed = <<>>, !.nAsk = 0,
+                         !.op = [kind |-> "none", n |-> 0, next |-> "none", ctl |-> FALSE],
+                         !.cnt.idle = IF st.pc = "OP" THEN @ ELSE @ + 1,
+                         !.nCrash = @ + 1, !.os = run.os, !.presets = run.apps, !.startM = st.clk.m,
+                         !.wfr = WfrOwed(comm, run.os)]
+
+\* top of the loop: report the waited-for-reboot duration once the clocks are consistent, then clear the record
+R4_ReportWait ==
+  /\ st.pc = "R4"
+  /\ IF st.wfr
+       THEN LET fin == st.store.pend["update_finish_time"]
+                nowNs == 123456789
+                borrow == IF nowNs < fin.ns THEN 1 ELSE 0
+                d == [s |-> (st.clk.w - fin.s) - (st.clk.m - st.startM) - borrow,
+                      ns |-> IF nowNs < fin.ns THEN nowNs + 1000000000 - fin.ns ELSE nowNs - fin.ns]
+                r == StRun(<<[k |-> "st.rm", key |-> "update_finish_time"], [k |-> "st.rm", key |-> "target_version"]>> \o Commit,
+                           st.store, st.clk, <<>>) IN
+            /\ Emit(<<Stamp([k |-> "met", m |-> "waited", d |-> d], st.clk)>> \o r.lines)
+            /\ st' = [st EXCEPT !.pc = "R5", !.wfr = FALSE, !.store = r.store, !.clk = r.clk]
+       ELSE /\ st' = [st EXCEPT !.pc = "R5"]
+            /\ UNCHANGED <<obs, g>>
+  /\ UNCHANGED script
+
 \* :369-374 the select of the idle loop.  With several sources ready the choice is free (select! is pseudo-random);
 \* scenario runs constrain it to one ready source.
 R7_TakeTimer ==
@@ -253,7 +315,7 @@ R8_Allowed(a) ==
                       src |-> st.ck.optSrc, ans |-> a], c0)>> \o (IF pos THEN <<>> ELSE reply))
      /\ script' = script \o Ans("pol.check", n, a)
      /\ st' = [st EXCEPT !.clk = Tick(c0), !.cnt.check = n,
-                         !.pc = IF pos THEN "P1" ELSE "R5",
+                         !.pc = IF pos THEN "P1" ELSE "R4",
                          !.respOwed = IF pos THEN reply ELSE <<>>,
                          !.ck.params = [src |-> src, dis |-> a.dis, same |-> a.same]]
 
@@ -331,7 +393,8 @@ P4b_Classify(draw) ==
             /\ Emit(<<met, Stamp([k |-> "tm.arm", tid |-> tid, t |-> "for", ms |-> ms,
                                    d |-> [s |-> ms \div 1000, ns |-> (ms % 1000) * 1000000]], st.clk),
                       Stamp([k |-> "tm.fire", tid |-> tid], st.clk)>>)
-            /\ st' = [st EXCEPT !.pc = "P4a", !.clk = Tick(@), !.ids.tid = tid, !.ck.attempt = @ + 1]
+            \* (the back-off wait is a blocking point with no operation pending: it counts as an idle point)
+            /\ st' = [st EXCEPT !.pc = "P4a", !.clk = Tick(@), !.ids.tid = tid, !.ck.attempt = @ + 1, !.cnt.idle = @ + 1]
             /\ UNCHANGED script
 
 BodyDoc(a) == Has(a.body, "doc")
@@ -706,7 +769,7 @@ W9_Reboot ==
 R12_Idle ==
   /\ st.pc = "R12"
   /\ Emit(<<StateEv("Idle", st.clk)>>)
-  /\ st' = [st EXCEPT !.pc = "R5", !.inWfr = FALSE, !.wait = [untilTid |-> 0, forTid |-> 0, untilFired |-> FALSE, forFired |-> FALSE, rbTid |-> 0, rbFired |-> FALSE]]
+  /\ st' = [st EXCEPT !.pc = "R4", !.inWfr = FALSE, !.wait = [untilTid |-> 0, forTid |-> 0, untilFired |-> FALSE, forFired |-> FALSE, rbTid |-> 0, rbFired |-> FALSE]]
   /\ UNCHANGED script
 
 (***************************************************************************)
@@ -726,6 +789,8 @@ EndStart ==
 
 Next ==
   \/ B0_Start
+  \/ R4_ReportWait
+  \/ \E run \in RestartRuns : Crash(run)
   \/ R5
   \/ \E w \in {"until", "for", "rb"} : FireTimer(w)
   \/ \E s \in CtlSources : CtlSendIdle(s)
